@@ -8,6 +8,7 @@ accumulated bytes in chunks of its choosing. Receiver: real `mido.Parser` direct
 
 Everything is decided by the plan, which is a pure function of (property, VERIF_SEED, run index).
 """
+import array
 import collections
 
 from simkit import bootstrap
@@ -32,7 +33,12 @@ TYPE_MIXES = (
     ('rt_heavy', model.RT_TYPES + ('note_on', 'sysex')),
     ('non_rt', model.NON_RT_TYPES),
 )
-HOWS = ('list', 'bytes', 'bytearray', 'gen', 'tuple', 'byte', 'gen_fail')
+HOWS = ('list', 'bytes', 'bytearray', 'gen', 'tuple', 'byte', 'gen_fail', 'array', 'memoryview', 'intsub')
+
+
+class Byte(int):
+    """An integer 0..255 that is not exactly `int` (what an IntEnum member or a numpy scalar is to the parser)."""
+    __slots__ = ()
 PREFIX_CLASSES = ('empty', 'noise', 'cut_msg', 'midstream', 'stray_status', 'open_sysex', 'world')
 ABS_STATES = ('idle', 'ch3a2', 'ch3a1', 'ch2a1', 'f13a1', 'f2a2', 'f2a1', 'sysex')
 BYTE_CLASSES = ('data', 'chan', 'F0', 'F1F3', 'F2', 'F6', 'F7', 'F4F5', 'rt', 'rtundef')
@@ -220,6 +226,13 @@ def _as(how, data):
         return (b for b in data)
     if how == 'tuple':
         return tuple(data)
+    if how == 'array':
+        # a buffer-exporting sequence of integers; items one, two or four bytes wide
+        return array.array(('B', 'H', 'i')[len(data) % 3], data)
+    if how == 'memoryview':
+        return memoryview(bytes(data))
+    if how == 'intsub':
+        return [Byte(b) for b in data]
     return list(data)
 
 
@@ -846,6 +859,16 @@ class WireEngine(BaseEngine):
                 raise Violation('invalid-message', f'yielded {m!r} whose bytes() do not decode: {e}')
             if not _eq(back, m):
                 raise Violation('invalid-message', f'yielded {m!r} != from_bytes(bytes()) {back!r}')
+            if m.type == 'sysex':
+                # a valid sysex message can be extended the documented way (msg.data += [...])
+                try:
+                    ext = m.copy()
+                    ext.data += [1]
+                    ok = tuple(ext.data) == tuple(m.data) + (1,)
+                except Exception as e:
+                    raise Violation('invalid-message', f'yielded {m!r} whose data cannot be extended with += : {e!r}')
+                if not ok:
+                    raise Violation('invalid-message', f'yielded {m!r}: data += [1] gave {ext.data!r}')
             if m.type in model.RT_TYPES:
                 r = state[1]
                 if r >= len(rtpos) or rtpos[r] >= fed or model.RT_BY_STATUS[wire[rtpos[r]]] != m.type:
